@@ -237,12 +237,19 @@ func init() {
 	// started on a goroutine of its own (thread mode), as the runtime does
 	intrinsics["vTimerFire"] = func(fr *frame, args []value) value {
 		t := timerRecs[asInt64(args[0])]
-		if !t.armed || t.f == nil {
+		if !t.armed || (t.f == nil && t.c == nil) {
 			return nil
 		}
 		was := t.armed
 		journalFn(func() { t.armed = was })
 		t.armed = false
+		if t.f == nil {
+			// a NewTimer: the expiry time arrives on C (dropped when nobody took the previous one)
+			if len(t.c.buf) == 0 {
+				t.c.push(zero(t.elem))
+			}
+			return nil
+		}
 		if sch == nil {
 			panic(engineErr("vTimerFire needs vThreads()"))
 		}
